@@ -529,6 +529,27 @@ impl Write for ShortWriter {
     }
 }
 
+/// An io::Write sink that takes at most `k` bytes per call and fails for good once `budget` bytes are in.
+struct FailingWriter {
+    buf: Vec<u8>,
+    k: usize,
+    budget: usize,
+}
+impl Write for FailingWriter {
+    fn write(&mut self, b: &[u8]) -> std::io::Result<usize> {
+        let room = self.budget - self.buf.len();
+        if room == 0 {
+            return Err(std::io::Error::new(std::io::ErrorKind::Other, "sink is full"));
+        }
+        let n = b.len().min(self.k).min(room);
+        self.buf.extend_from_slice(&b[..n]);
+        Ok(n)
+    }
+    fn flush(&mut self) -> std::io::Result<()> {
+        Ok(())
+    }
+}
+
 /// drives `write_vectored` the way `write_all_vectored` would: random gather lists, resubmitting what was not accepted
 fn write_all_gathered<W: Write>(w: &mut W, d: &[u8], rng: &mut StdRng) -> std::io::Result<()> {
     let mut off = 0;
@@ -826,6 +847,20 @@ pub fn run(a: &Args) -> anyhow::Result<String> {
                     ev.push(json!({"ev":"MtData","did":did,"n":d.len(),"path":"HashedWrite/gathered","k":k,"inner_ok":inner_ok,"id":t.hid(&mh(&sh))}).to_string());
                     ev.push(json!({"ev":"MtData","did":did,"n":d.len(),"path":"ref","id":t.hid(&merkleref::chunk_hash(&d))}).to_string());
                     t.add("datas_short_sink", 2);
+                    // a sink that runs full in the middle of a write_all: the error is returned, and the hash is the hash
+                    // of exactly the bytes the sink holds
+                    if d.len() > 1 {
+                        let budget = rng.gen_range(0..d.len());
+                        let mut w = HashedWrite::new(FailingWriter { buf: Vec::new(), k, budget });
+                        let r = w.write_all(&d);
+                        let sh = w.hash();
+                        let got = w.into_inner().buf;
+                        let gid = t.datas.id(&got);
+                        ev.push(json!({"ev":"MtData","did":gid,"n":got.len(),"path":"compute_data_hash","id":t.hid(&mh(&compute_data_hash(&got)))}).to_string());
+                        ev.push(json!({"ev":"MtData","did":gid,"n":got.len(),"path":"HashedWrite/failing_sink","k":k,"inner_ok":r.is_err() && got[..] == d[..budget],"id":t.hid(&mh(&sh))}).to_string());
+                        ev.push(json!({"ev":"MtData","did":gid,"n":got.len(),"path":"ref","id":t.hid(&merkleref::chunk_hash(&got))}).to_string());
+                        t.add("datas_short_sink", 1);
+                    }
                 }
                 if sample.is_empty() {
                     sample = ev.iter().take(3).cloned().collect();
